@@ -178,6 +178,26 @@ class CFG:
         return [(n, None)]
 
     # ------------------------------------------------------------ queries
+    def locate(self, astnode) -> List[Node]:
+        """CFG nodes (statement / atomic test) whose AST contains `astnode`"""
+        if not hasattr(self, "_index"):
+            self._index: Dict[int, List[Node]] = {}
+            for n in self.nodes:
+                if n.ast is None:
+                    continue
+                roots = [n.ast.target] if n.kind == "loopiter" else [n.ast]
+                if n.kind == "except":
+                    roots = [n.ast.type] if n.ast.type is not None else []
+                for root in roots:
+                    stack = [root]
+                    while stack:
+                        x = stack.pop()
+                        self._index.setdefault(id(x), []).append(n)
+                        if isinstance(x, (ast.FunctionDef, ast.Lambda, ast.ClassDef)) and x is not root:
+                            continue
+                        stack.extend(ast.iter_child_nodes(x))
+        return self._index.get(id(astnode), [])
+
     def stmt_nodes(self) -> Iterable[Node]:
         return (n for n in self.nodes if n.kind in ("stmt", "test", "loopiter"))
 
